@@ -303,3 +303,165 @@ class Gen:
             [{'k': 'str', 's': 'again'}, {'k': 'coalesce', 'subs': [
                 {'k': 'tuple', 'xs': [{'k': 'str', 's': 'a'}, {'k': 'ref', 'name': name, 'sub': None}]}],
                 'dflt': {'k': 'lit', 'v': None}, 'dflt_factory': None, 'skip': None, 'skip_exc': ['GlomError']}]]}}
+
+    # ------------------------------------------------------------ scope (C07)
+    POOL = ['k1', 'k2', 'p']
+
+    def s_reader(self, v, depth):
+        r = self.rng
+        p = r.random()
+        n = r.choice(self.POOL)
+        if p < 0.6:
+            return {'k': 'sRead', 'name': n, 'steps': [], 'item': r.random() < 0.4}
+        if p < 0.8:
+            return {'k': 'sGlobRead', 'name': n}
+        return {'k': 'sVarRead', 'var': 'vv', 'name': n}
+
+    def binder(self, v, depth):
+        r = self.rng
+        p = r.random()
+        n = r.choice(self.POOL)
+        if p < 0.3:
+            bs = [[n, self.argspec(v, depth)]]
+            if r.random() < 0.3:
+                bs.append([r.choice(self.POOL), self.argspec(v, depth)])
+            seen, out = set(), []
+            for k, s in bs:
+                if k not in seen:
+                    seen.add(k); out.append([k, s])
+            return {'k': 'sBind', 'bs': out}
+        if p < 0.55:
+            return {'k': 'aBind', 'name': n}
+        if p < 0.7:
+            return {'k': 'aGlob', 'name': n}
+        if p < 0.8:
+            return {'k': 'sBind', 'bs': [['vv', {'k': 'vars', 'defaults': [[r.choice(self.POOL), jv(r.choice([0, 'dv']))]] if r.random() < 0.5 else []}]]}
+        if p < 0.88:
+            return {'k': 'aVar', 'var': 'vv', 'name': n}
+        if p < 0.94:
+            return {'k': 'let', 'bs': [[n, self.spec(v, max(depth - 1, 0))]]}
+        return {'k': 'specW', 's': self.spec(v, max(depth - 1, 0)), 'scope': [[n, jv(r.choice([1, 'sv']))]]}
+
+    def s_binder(self, v, depth):
+        return self.binder(v, depth)
+
+    def s_bindchain(self, v, depth):
+        """a tuple / Pipe mixing binders, ordinary steps and readers"""
+        r = self.rng
+        steps = []
+        cur = v
+        for _ in range(r.randint(1, 5)):
+            p = r.random()
+            if p < 0.35:
+                s = self.binder(cur, depth - 1)
+            elif p < 0.6:
+                s = self.s_reader(cur, depth - 1)
+            else:
+                s = self.spec(cur, depth - 1)
+            steps.append(s)
+        return {'k': r.choice(['tuple', 'tuple', 'pipe']), 'xs': steps}
+
+    def s_and(self, v, depth):
+        r = self.rng
+        return {'k': r.choice(['and', 'or']), 'cs': [self.spec(v, depth - 1) for _ in range(r.randint(1, 3))],
+                'dflt': None if r.random() < 0.7 else {'k': 'lit', 'v': jv('bd')}}
+
+    def s_not(self, v, depth):
+        return {'k': 'not', 'c': self.spec(v, depth - 1)}
+
+    def s_switch(self, v, depth):
+        r = self.rng
+        cases = []
+        for _ in range(r.randint(1, 3)):
+            p = r.random()
+            if p < 0.3:
+                key = self.binder(v, depth - 1)
+            elif p < 0.5:
+                key = {'k': 'str', 's': 'zz'}
+            elif p < 0.6:
+                key = {'k': 'match', 's': {'k': 'ty', 'name': r.choice(['int', 'dict', 'list', 'str'])}, 'dflt': None}
+            else:
+                key = self.spec(v, depth - 1)
+            cases.append([key, self.spec(v, depth - 1)])
+        return {'k': 'switch', 'cases': cases,
+                'dflt': None if r.random() < 0.6 else {'k': 'lit', 'v': jv('sd')}}
+
+    def s_matchdict(self, v, depth):
+        """Match({key_spec: value_spec}) on a dict target: a key's bindings reach its own value only"""
+        r = self.rng
+        es = []
+        if isinstance(v, dict):
+            for k in list(v)[:2]:
+                if r.random() < 0.6:
+                    es.append([{'k': 'str', 's': k} if isinstance(k, str) else {'k': 'lit', 'v': jv(k)},
+                               r.choice([{'k': 'ty', 'name': 'object'}, self.s_reader(v, 0), self.probe()])])
+        p = r.random()
+        if p < 0.5:
+            es.append([{'k': 'aBind', 'name': r.choice(self.POOL)},
+                       r.choice([self.s_reader(v, 0), {'k': 'ty', 'name': 'object'}])])
+        elif p < 0.8:
+            es.append([{'k': 'ty', 'name': r.choice(['str', 'object', 'int'])},
+                       r.choice([{'k': 'ty', 'name': 'object'}, self.s_reader(v, 0)])])
+        return {'k': 'match', 's': {'k': 'dict', 'es': es},
+                'dflt': None if r.random() < 0.7 else {'k': 'lit', 'v': jv('md')}}
+
+    # ------------------------------------------------------------ modes (C08)
+    def s_probe(self, v, depth):
+        return self.probe()
+
+    def modeprobe(self, v, depth):
+        """a mode-sensitive plain object: means something different in every mode"""
+        r = self.rng
+        p = r.random()
+        if p < 0.25:
+            return {'k': 'str', 's': r.choice(['a', 'b', 'lit'])}
+        if p < 0.5:
+            return {'k': 'tuple', 'xs': [self.leafprobe(v), self.leafprobe(v)][:r.randint(0, 2)]}
+        if p < 0.7:
+            return {'k': 'list', 'xs': [self.leafprobe(v)]}
+        if p < 0.9:
+            return {'k': 'dict', 'es': [[{'k': 'str', 's': 'm'}, self.leafprobe(v)]]}
+        return {'k': 'lit', 'v': jv(r.choice([1, None]))}
+
+    def leafprobe(self, v):
+        r = self.rng
+        return r.choice([self.probe(), {'k': 't', 'steps': []}, {'k': 'str', 's': 'a'},
+                         self.fn(self.fn_for(v)), {'k': 'lit', 'v': jv(1)}])
+
+    def s_modeprobe(self, v, depth):
+        return self.modeprobe(v, depth)
+
+    def s_wrap(self, v, depth):
+        r = self.rng
+        w = r.choice(['fill', 'auto', 'match', 'group'])
+        inner = self.spec(v, depth - 1) if r.random() < 0.6 else self.modeprobe(v, depth - 1)
+        if w == 'match':
+            return {'k': 'match', 's': inner, 'dflt': None if r.random() < 0.6 else self.modeprobe(v, 0)}
+        if w == 'group':
+            inner = r.choice([self.probe(), {'k': 't', 'steps': []}, self.fn('id'),
+                              {'k': r.choice(['fill', 'auto']), 's': self.modeprobe(v, 0)},
+                              {'k': 'pipe', 'xs': [self.probe(), self.modeprobe(v, 0)]}])
+            return {'k': 'group', 's': inner}
+        return {'k': w, 's': inner}
+
+    def s_fillshape(self, v, depth):
+        """Fill over a literal container shape with T / Spec leaves"""
+        r = self.rng
+
+        def shape(d):
+            p = r.random()
+            if d <= 0 or p < 0.35:
+                return r.choice([{'k': 't', 'steps': []}, self.access(v), {'k': 'lit', 'v': jv(r.choice([1, None, True]))},
+                                 {'k': 'str', 's': r.choice(['s', 'a.b'])}, self.fn(self.fn_for(v)),
+                                 {'k': 'val', 'v': jv(5)}, {'k': 'specW', 's': self.access(v), 'scope': []},
+                                 self.probe()])
+            if p < 0.55:
+                return {'k': 'list', 'xs': [shape(d - 1) for _ in range(r.randint(0, 3))]}
+            if p < 0.75:
+                return {'k': 'tuple', 'xs': [shape(d - 1) for _ in range(r.randint(0, 3))]}
+            if p < 0.9:
+                ks = r.sample(['x', 'y', 1], r.randint(0, 2))
+                return {'k': 'dict', 'es': [[{'k': 'str', 's': k} if isinstance(k, str) else {'k': 'lit', 'v': jv(k)},
+                                             shape(d - 1)] for k in ks]}
+            return {'k': r.choice(['set', 'fset']), 'xs': [{'k': 'lit', 'v': jv(x)} for x in r.sample([1, 2, 'a'], r.randint(0, 2))]}
+        return {'k': 'fill', 's': shape(depth)}
